@@ -404,7 +404,7 @@ def check_series_spec(ctx, repo):
                 else:
                     types = _fold_types(repo, mod, fn, spec)
         if types is None:
-            ctx.undecided("R2", key, "accepted container types not foldable to a class list", loc)
+            _skip(ctx, "R2", key, "accepted container types not foldable to a class list", loc)
             continue
         ctx.check(set(types) == want[allow], "R2", key, "accepts exactly %s" % sorted(want[allow]),
                   "with allow_numpy=%s check_series accepts %s, expected %s" % (allow, sorted(types), sorted(want[allow])), loc,
